@@ -425,6 +425,10 @@ def run(ck):
     # destinations, so the validator must accept exactly the address grammar - all of 1..4 digits in 1..5 (R15.3, shared with C15)
     from . import c15
     c15.validator(ck, agg)
+    # "every hop is the sender's parent / pipes never collide": pipes and routing fields follow the logical address only because nothing
+    # but _begin() stores it (R07.4, shared with C07)
+    from . import c07
+    c07.addr_writers(ck, agg)
     agg.flush()
     ck.floor("R04.9", "write() paths reaching the transmitter", n8, 4)
     ck.floor("R04.8", "node_address re-assignment scenarios", n6, 4)
